@@ -260,15 +260,21 @@ namespace rpc
 
         void add_checksum(iovector* iov) {
             assert(m_checksum == Hasher::init_value());
-            Hasher::extend_hash(m_checksum, iov);
+            // the body (which contains m_checksum) is part of `iov`, so the running
+            // value must not live in m_checksum itself while the body is being hashed
+            auto value = Hasher::init_value();
+            Hasher::extend_hash(value, iov);
+            m_checksum = value;
         }
 
         bool validate_checksum(iovector* iov, void* body, size_t body_length) {
             auto dst = m_checksum;
             m_checksum = Hasher::init_value();
-            Hasher::extend_hash(m_checksum, iov);
+            auto value = Hasher::init_value();
+            Hasher::extend_hash(value, iov);
             if (body != nullptr && body_length != 0)
-                Hasher::extend_hash(m_checksum, body, body_length);
+                Hasher::extend_hash(value, body, body_length);
+            m_checksum = value;
             if (dst != m_checksum)
                 return false;
             return true;
